@@ -340,24 +340,36 @@ def target_of(exe, line):
 def key_of(exe, line, why):
     ty = types_of(exe)
     bi = block_of(exe, line)
-    cmd = exe.blocks[bi][0] if bi >= 0 else ["?"]
     ev = exe.events[line - 1] if 0 < line <= len(exe.events) else {}
     target = target_of(exe, line)
-    if target is not None and ev.get("e") != "Quiescent":
+    leak = ev.get("e") == "Quiescent" or ev.get("kind") == "leak"
+    if leak:
+        # name the first pipe (creation order) whose refcount was never destroyed
+        ended = {e["o"] for e in exe.events if e["e"] == "End"}
+        inv = {o: n for n, o in getattr(exe, "names", {}).items()}
+        left = [inv[e["o"]] for e in exe.events if e["e"] == "Init" and e["o"] not in ended and e["o"] in inv]
+        left = [n for n in left if n in ty and n != "se"]
+        target = left[0] if left else None
+    if target is not None:
         seq = []
-        for c, _ in exe.blocks[:bi + 1]:
+        for c, _ in exe.blocks[:bi + 1 if bi >= 0 else None]:
             if len(c) > 1 and c[1] == target:
                 n = norm_cmd(c)
                 if n:
                     seq.append(n)
-        return "%s;%s" % (ty[target], ",".join(seq))
-    # end of the execution (leak) or a command without a pipe: name the pipeline and every call
+        return "%s;%s%s" % (ty[target], ",".join(seq), ";never destroyed" if leak else "")
+    # no pipe to attribute it to: name every call of the body
     seq = []
-    for c, _ in exe.blocks[:bi + 1 if bi >= 0 else None]:
-        n = norm_cmd(c)
-        if n and len(c) > 1 and c[1] in ty:
-            seq.append("%s.%s" % (ty[c[1]], n))
-    what = "leak" if ev.get("e") == "Quiescent" or ev.get("kind") == "leak" else (ev.get("kind") or why)
+    for c in exe.cmds[:getattr(exe, "nbody", len(exe.cmds))]:
+        t = c.split()
+        n = norm_cmd(t)
+        if n is None and t[0] in ("ualloc", "udup", "ufree", "udetach", "uattach", "bdup", "bfree"):
+            n = {"ualloc": "uref_alloc", "udup": "uref_dup", "ufree": "uref_free", "udetach": "uref_detach_ubuf",
+                 "uattach": "uref_attach_ubuf", "bdup": "ubuf_dup", "bfree": "ubuf_free"}[t[0]]
+            seq.append(n)
+        elif n and len(t) > 1 and t[1] in ty:
+            seq.append("%s.%s" % (ty[t[1]], n))
+    what = "leak" if leak else (ev.get("kind") or why)
     return "%s;%s" % (what, ",".join(seq))
 
 
@@ -366,9 +378,28 @@ def well_formed(cmds):
     rules: every name is created before it is used and never used after
     the application gave it up."""
     live = set()
+    fdset = set()      # pipes that were given a flow definition
+    sinks = set()
+    regs = {}          # request -> pipe it is registered on
     for c in cmds:
         t = c.split()
         k = t[0]
+        if k == "sink":
+            sinks.add(t[1])
+        if k in ("setfd", "usetfd"):
+            fdset.add(t[1])
+        if k in ("in", "uin") and t[1] not in sinks and t[1] not in fdset:
+            return False              # buffers only after a flow definition
+        if k == "reg":
+            if regs.get(t[2]) is not None:
+                return False
+            regs[t[2]] = t[1]
+        if k == "unreg":
+            if regs.get(t[2]) != t[1]:
+                return False
+            regs[t[2]] = None
+        if k == "rel" and t[1] in regs.values():
+            return False              # unregister before releasing the pipe
         if k in ("new", "cnew", "sink", "ualloc", "ufd", "req"):
             if t[1] in live:
                 return False
@@ -415,39 +446,57 @@ def well_formed(cmds):
     return not live
 
 
-def shrink(ctx, binp, exe, why, rounds=24):
-    """Delta debugging (chunks, then single commands): drop commands while
-    the script stays well formed and Lifecycle_Trace still rejects the
-    execution for the same sentence."""
-    cur = exe
+def same_failure(e, line, why, ref):
+    ev = e.events[line - 1] if 0 < line <= len(e.events) else {}
+    return why == ref[0] and ev.get("e") == ref[1] and ev.get("kind") == ref[2]
+
+
+def shrink(ctx, binp, exe, line, why, rounds=24):
+    """Delta debugging (chunks, then single commands) on the BODY of the
+    script; the epilogue is recomputed for every candidate, candidates must
+    respect the ownership rules and the input contract, and Lifecycle_Trace
+    must reject them for the same sentence with the same kind of event.
+    Returns (execution, line, sentence)."""
+    ev0 = exe.events[line - 1] if 0 < line <= len(exe.events) else {}
+    ref = (why, ev0.get("e"), ev0.get("kind"))
+    body = exe.cmds[:getattr(exe, "nbody", len(exe.cmds))]
+    if "teardown" in body:
+        body = body[:body.index("teardown")]
+    first = Exe(body + epilogue_for(body), exe.source, exe.pool)
+    first.nbody = len(body)
+    if not well_formed(first.cmds):
+        return exe, line, why
+    execute(ctx, binp, [first], jobs=1)
+    r = validate(ctx, [first], "shr") if first.san != "hang" else []
+    if not r or not same_failure(first, r[0][1], r[0][2], ref):
+        return exe, line, why                 # only fails with its own epilogue: keep it as it is
+    cur, cline = first, r[0][1]
     n = 2
-    while rounds > 0 and len(cur.cmds) > 2:
+    while rounds > 0 and cur.nbody > 1:
         rounds -= 1
-        body = cur.cmds
+        body = cur.cmds[:cur.nbody]
         chunk = max(1, len(body) // n)
         cands = []
         for i in range(0, len(body), chunk):
-            c = body[:i] + body[i + chunk:]
-            if "teardown" in body[i:i + chunk]:
-                c = c + ["teardown"]
-            if well_formed(c) and len(c) < len(body):
-                cands.append(Exe(c, cur.source, cur.pool))
+            b = body[:i] + body[i + chunk:]
+            c = Exe(b + epilogue_for(b), cur.source, cur.pool)
+            c.nbody = len(b)
+            if well_formed(c.cmds):
+                cands.append(c)
+        rej = []
         if cands:
             execute(ctx, binp, cands, jobs=6)
             rej = validate(ctx, [e for e in cands if e.san != "hang"], "shr")
-        else:
-            rej = []
-        ok = [(e, l, w) for e, l, w in rej if w == why]
+        ok = [(e, l) for e, l, w in rej if same_failure(e, l, w, ref)]
         if ok:
-            ok.sort(key=lambda x: len(x[0].cmds))
-            cur = ok[0][0]
-            cur.rej = (ok[0][1], ok[0][2])
+            ok.sort(key=lambda x: x[0].nbody)
+            cur, cline = ok[0]
             n = max(2, n - 1)
         elif chunk == 1:
             break
         else:
             n = min(len(body), n * 2)
-    return cur
+    return cur, cline, why
 
 
 def canonical_trigger(ctx, binp, exe, line, why):
@@ -463,46 +512,46 @@ def canonical_trigger(ctx, binp, exe, line, why):
     if cmd[0] not in NORM or cmd[0] == "rel" or len(cmd) < 2 or cmd[1] not in ty:
         return exe, line
     k = bi - (len(PRELUDE) + 1)
-    if k < 0:
+    if k < 0 or k >= getattr(exe, "nbody", 0):
         return exe, line
-    cand = exe.cmds[:k] + ["rel %s" % cmd[1], "loop", "teardown"]
-    if not well_formed(cand):
+    body = exe.cmds[:k] + ["rel %s" % cmd[1]]
+    e = Exe(body + epilogue_for(body), exe.source, exe.pool)
+    e.nbody = len(body)
+    if not well_formed(e.cmds):
         return exe, line
-    e = Exe(cand, exe.source, exe.pool)
     execute(ctx, binp, [e], jobs=1)
     r = validate(ctx, [e], "can")
-    if r and r[0][2] == why and block_of(e, r[0][1]) >= 0 and e.blocks[block_of(e, r[0][1])][0][0] == "rel":
-        e.rej = (r[0][1], r[0][2])
-        return e, r[0][1]
+    if r and r[0][2] == why:
+        b2 = block_of(e, r[0][1])
+        if b2 >= 0 and b2 - (len(PRELUDE) + 1) == k:
+            return e, r[0][1]
     return exe, line
 
 
 def report(ctx, binp, exe, line, why, others=0):
     again = Exe(exe.cmds, exe.source, exe.pool)
+    again.nbody = getattr(exe, "nbody", len(exe.cmds))
     execute(ctx, binp, [again], jobs=1)
     r2 = validate(ctx, [again], "re")
     if not r2:
         raise vlib.ToolError("rejected execution did not reproduce (flaky harness?): %s" % exe.cmds)
     line, why = r2[0][1], r2[0][2]
-    small = shrink(ctx, binp, again, why)
-    if small is not again:
-        line, why = small.rej
-    small, line = canonical_trigger(ctx, binp, small, line, why)
-    if hasattr(small, "rej") and small is not again:
-        small2 = shrink(ctx, binp, small, why, rounds=8)
-        if small2 is not small:
-            small = small2
-            line, why = small.rej
+    small, line, why = shrink(ctx, binp, again, line, why)
+    small2, line2 = canonical_trigger(ctx, binp, small, line, why)
+    if small2 is not small:
+        small, line, why = shrink(ctx, binp, small2, line2, why, rounds=8)
     key = key_of(small, line, why)
     ev = small.events[line - 1] if 0 < line <= len(small.events) else {}
     bi = block_of(small, line)
-    what = "%s: %s violated: event %s during `%s` (pool depth %d) is refused by Lifecycle_Trace; minimal script: %s" % (
+    nb = getattr(small, "nbody", len(small.cmds))
+    what = "%s: %s violated: event %s during `%s` (pool depth %d) is refused by Lifecycle_Trace; minimal script: %s [+ epilogue: %s]" % (
         key, why, json.dumps(ev), " ".join(small.blocks[bi][0]) if bi >= 0 else "?", small.pool,
-        "; ".join(c for c in small.cmds if not c.startswith(("who", "rcs"))))
+        "; ".join(c for c in small.cmds[:nb] if not c.startswith(("who", "rcs"))),
+        "; ".join(c for c in small.cmds[nb:] if not c.startswith(("who", "rcs", "policy", "reqmode"))))
     if small.san:
         what += " | sanitizer: %s" % (re.findall(r"(ERROR: \w+Sanitizer[^\n]*|runtime error[^\n]*|Assertion[^\n]*)", small.stderr) or [small.san])[0]
     if others:
-        what += " | %d other rejected executions with the same signature (pipe type, sentence, kind of event)" % others
+        what += " | %d other rejected executions with the same signature (pipe type, kind of event)" % others
     ctx.violation(key, what, {"cmds": small.cmds, "pool": small.pool, "source": small.source,
                               "sentence": why, "rejected_event": ev, "original_cmds": exe.cmds})
     return key
@@ -637,6 +686,7 @@ def beh_exe(b, topo, qlen, lin_types, pool, source):
     cmds.append("teardown")
     e = Exe(cmds, source, pool, pred=pred)
     e.name = name
+    e.nbody = next((f for f, _, st in pred if st["c"] == "finish"), len(cmds) - 1)
     return e
 
 
@@ -725,6 +775,7 @@ def buf_exe(b, pool, source):
     e = Exe(cmds, source, pool, pred=pred)
     e.name = {}
     e.buf = True
+    e.nbody = next((f for f, _, st in pred if st["c"] == "finish"), len(cmds) - 2)
     return e
 
 
@@ -841,6 +892,75 @@ def calibrate(ctx, binp):
         info[e.type] = {"alloc": alloc, "fd": alloc and ok.get("setfd") == "0", "input": alloc and inp,
                         "clean": e.san is None}
     return info, exes
+
+
+def epilogue_for(body):
+    """The epilogue of DESIGN.md C01 for a script body: resolve every stall
+    (sinks accept and hold requests, outstanding requests answered, pipes
+    without output get one so that their pending requests are registered
+    somewhere, event loop run until idle), unregister, free what the
+    application still owns, flush and release every handle in creation
+    order, run the loop and the clock, release the managers."""
+    held, kind, outof, reqs, urefs, ubufs = [], {}, {}, {}, [], []
+    for c in body:
+        t = c.split()
+        k = t[0]
+        if k in ("new", "cnew"):
+            held.append(t[1])
+            kind[t[1]] = t[2]
+        elif k == "sink":
+            held.append(t[1])
+            kind[t[1]] = "sink"
+        elif k == "sub":
+            held.append(t[1])
+            kind[t[1]] = "sub"
+        elif k == "rel" and t[1] in held:
+            held.remove(t[1])
+        elif k == "out":
+            outof[t[1]] = None if t[2] == "null" else t[2]
+        elif k == "req":
+            reqs[t[1]] = None
+        elif k == "reg":
+            reqs[t[2]] = t[1]
+        elif k == "unreg":
+            reqs[t[2]] = None
+        elif k in ("ualloc", "ufd"):
+            urefs.append(t[1])
+        elif k == "udup":
+            urefs.append(t[2])
+        elif k in ("ufree",) and t[1] in urefs:
+            urefs.remove(t[1])
+        elif k == "uin" and t[2] in urefs:
+            urefs.remove(t[2])
+        elif k == "udetach":
+            ubufs.append(t[2])
+        elif k == "bdup":
+            ubufs.append(t[2])
+        elif k == "bfree" and t[1] in ubufs:
+            ubufs.remove(t[1])
+        elif k == "uattach" and t[2] in ubufs:
+            ubufs.remove(t[2])
+    ep = []
+    for n in held:
+        if kind[n] == "sink":
+            ep += ["policy %s accept" % n, "reqmode %s hold" % n]
+    ep += ["answer", "loop", "sink se", "who se"]
+    for n in held:
+        if kind[n] != "sink" and outof.get(n) is None:
+            ep.append("out %s se" % n)
+    ep += ["answer", "loop"]
+    for r in sorted(reqs):
+        if reqs[r] is not None:
+            ep.append("unreg %s %s" % (reqs[r], r))
+    ep += ["ufree %s" % n for n in urefs] + ["bfree %s" % b for b in ubufs]
+    for n in held:
+        if kind[n] != "sink":
+            ep.append("flush %s" % n)
+        ep.append("rel %s" % n)
+    ep += ["rel se", "loop", "advance 2700000000", "loop"]
+    ep += ["reqclean %s" % r for r in sorted(reqs)]
+    ep += ["rcs", "teardown"]
+    return ep
 
 
 PUMP_TYPES = ("buffer", "disblo", "burst", "time_limit", "rate_limit", "sync", "play", "trickp", "stream_switcher",
@@ -1039,31 +1159,9 @@ def gen_random(rng, info, quick):
                     urefs[n] = "fd"
                     if fd_accepts(p):
                         fd_ok.add(p)
-    # epilogue: resolve every stall, then release everything
-    for s in sinks:
-        if s in held:
-            cmds += ["policy %s accept" % s, "reqmode %s hold" % s]
-    cmds += ["answer", "loop", "sink se", "who se"]
-    for n in sorted(held, key=lambda x: order.get(x, 0)):
-        if held[n] != "sink" and outof.get(n) is None:
-            cmds.append("out %s se" % n)       # pending requests of a pipe without output get registered here
-    cmds += ["answer", "loop"]
-    for r, p in sorted(reqs.items()):
-        if p is not None:
-            cmds.append("unreg %s %s" % (p, r))
-    for n in sorted(urefs):
-        cmds.append("ufree %s" % n)
-    for b in sorted(ubufs):
-        cmds.append("bfree %s" % b)
-    for n in sorted(held, key=lambda x: order.get(x, 0)):
-        if held[n] != "sink":
-            cmds.append("flush %s" % n)
-        cmds.append("rel %s" % n)
-    cmds += ["rel se", "loop", "advance 2700000000", "loop"]
-    for r in sorted(reqs):
-        cmds.append("reqclean %s" % r)
-    cmds += ["rcs", "teardown"]
-    return Exe(cmds, "random", pool)
+    e = Exe(cmds + epilogue_for(cmds), "random", pool)
+    e.nbody = len(cmds)
+    return e
 
 
 def directed():
